@@ -218,7 +218,7 @@ def cases(tier):
     out.append({"type": "step", "mode": "ru", "norb": 2, "nchol": 2, "n_walkers": 2})  # >= 2 Cholesky matrices: constants built from sums over g differ
     if tier == "thorough":
         out += [{"type": "trot", "restricted": r, "norb": 3, "nocc": 2, "nchol": 2, "n_walkers": 4, "n_exp_terms": 4} for r in (True, False)]
-        out.append({"type": "step", "mode": "ru", "norb": 3, "nchol": 2, "n_walkers": 2})
+        out.append({"type": "step", "mode": "ru", "norb": 2, "nchol": 3, "n_walkers": 3})
     return out
 
 
